@@ -37,39 +37,49 @@ def broadcast (t u : Tensor R) : Tensor R × Tensor R :=
   if t.shape = u.shape then (t, u)
   else (t.repeatT (List.zipWith bcRep t.shape u.shape), u.repeatT (List.zipWith bcRep u.shape t.shape))
 
+/-- `torch.cat((U1, U2), dim=1)` -/
+def Fac.hcat (U1 U2 : Fac R) : Fac R :=
+  { rows := U1.rows, cols := U1.cols + U2.cols,
+    f := fun i j => if j < U1.cols then U1.f i j else U2.f i (j - U1.cols) }
+
+/-- `einsum('ij,ik->ijk', U1, U2).reshape(I, -1)` : row-wise Kronecker (Khatri-Rao) product -/
+def Fac.krao (U1 U2 : Fac R) : Fac R :=
+  { rows := U1.rows, cols := U1.cols * U2.cols,
+    f := fun i j => U1.f i (j / U2.cols) * U2.f i (j % U2.cols) }
+
+/-- `__add__`, branch "decompress spatially, then stack" (tensor.py:622-654).  Entries are written
+    through `Core.get` (a CP factor read as its diagonal core), so `c.get k j k` is entry `[j,k]`
+    of a CP factor. -/
+def addPlain (x y : TMode R) : TMode R :=
+  let d1 := x.decomp; let d2 := y.decomp
+  if x.core.isCP && y.core.isCP then
+    { core := .cp d1.spatial (d1.rr + d2.rr) (fun j k =>
+        if k < d1.rr then d1.get k j k else d2.get (k - d1.rr) j (k - d1.rr)), U := none }
+  else
+    { core := .tt (d1.rl + d2.rl) d1.spatial (d1.rr + d2.rr) (fun a j b =>
+        if a < d1.rl then (if b < d1.rr then d1.get a j b else 0)
+        else (if b < d1.rr then 0 else d2.get (a - d1.rl) j (b - d1.rr))),
+      U := none }
+
+/-- `__add__`, branch "both operands carry a factor" (tensor.py:515-620): 3-way block layout,
+    factors concatenated side by side -/
+def addFac (c1 c2 : Core R) (U1 U2 : Fac R) : TMode R :=
+  let U : Fac R := U1.hcat U2
+  if c1.isCP && c2.isCP then
+    { core := .cp (c1.spatial + c2.spatial) (c1.rr + c2.rr) (fun j k =>
+        if j < c1.spatial then (if k < c1.rr then c1.get k j k else 0)
+        else (if k < c1.rr then 0 else c2.get (k - c1.rr) (j - c1.spatial) (k - c1.rr))), U := some U }
+  else
+    { core := .tt (c1.rl + c2.rl) (c1.spatial + c2.spatial) (c1.rr + c2.rr) (fun a j b =>
+        if j < c1.spatial then (if a < c1.rl then (if b < c1.rr then c1.get a j b else 0) else 0)
+        else (if a < c1.rl then 0 else (if b < c1.rr then 0 else c2.get (a - c1.rl) (j - c1.spatial) (b - c1.rr)))),
+      U := some U }
+
 /-- one mode of `__add__` (before the boundary collapse) -/
 def addMode (x y : TMode R) : TMode R :=
-  let c1 := x.core; let c2 := y.core
   match x.U, y.U with
-  | some U1, some U2 =>
-    -- both operands carry a factor: 3-way block layout, factors concatenated side by side
-    let U : Fac R := { rows := U1.rows, cols := U1.cols + U2.cols,
-                       f := fun i j => if j < U1.cols then U1.f i j else U2.f i (j - U1.cols) }
-    if c1.isCP && c2.isCP then
-      match c1, c2 with
-      | .cp s1 r1 f1, .cp s2 r2 f2 =>
-        { core := .cp (s1 + s2) (r1 + r2) (fun j k =>
-            if j < s1 then (if k < r1 then f1 j k else 0)
-            else (if k < r1 then 0 else f2 (j - s1) (k - r1))), U := some U }
-      | _, _ => { core := c1, U := some U }   -- unreachable
-    else
-      { core := .tt (c1.rl + c2.rl) (c1.spatial + c2.spatial) (c1.rr + c2.rr) (fun a j b =>
-          if j < c1.spatial then (if a < c1.rl then (if b < c1.rr then c1.get a j b else 0) else 0)
-          else (if a < c1.rl then 0 else (if b < c1.rr then 0 else c2.get (a - c1.rl) (j - c1.spatial) (b - c1.rr)))),
-        U := some U }
-  | _, _ =>
-    -- decompress spatially, then stack
-    let d1 := x.decomp; let d2 := y.decomp
-    if c1.isCP && c2.isCP then
-      match d1, d2 with
-      | .cp s1 r1 f1, .cp _ r2 f2 =>
-        { core := .cp s1 (r1 + r2) (fun j k => if k < r1 then f1 j k else f2 j (k - r1)), U := none }
-      | _, _ => { core := d1, U := none }     -- unreachable
-    else
-      { core := .tt (d1.rl + d2.rl) d1.spatial (d1.rr + d2.rr) (fun a j b =>
-          if a < d1.rl then (if b < d1.rr then d1.get a j b else 0)
-          else (if b < d1.rr then 0 else d2.get (a - d1.rl) j (b - d1.rr))),
-        U := none }
+  | some U1, some U2 => addFac x.core y.core U1 U2
+  | _, _ => addPlain x y
 
 /-- `core.sum(dim=0, keepdim=True)` for a TT core; CP cores are left alone -/
 def Core.sumL : Core R → Core R
@@ -94,45 +104,41 @@ def Tensor.add (t u : Tensor R) : Tensor R :=
   let (t', u') := broadcast t u
   Tensor.collapseLast (Tensor.collapseFirst (List.zipWith addMode t' u'))
 
+/-- `core.shape[1]` : the spatial size of a TT core, but the *rank* of a CP factor
+    (`__mul__` uses it in its "would it blow up" test, tensor.py:741) -/
+def Core.shape1 : Core R → Nat
+  | .tt _ s _ _ => s
+  | .cp _ r _ => r
+
+/-- `__mul__`, branch "decompress spatially, then slice-wise Kronecker product" (`_core_kron`) -/
+def mulPlain (x y : TMode R) : TMode R :=
+  let d1 := x.decomp; let d2 := y.decomp
+  if x.core.isCP && y.core.isCP then
+    { core := .cp d1.spatial (d1.rr * d2.rr) (fun j k =>
+        d1.get (k / d2.rr) j (k / d2.rr) * d2.get (k % d2.rr) j (k % d2.rr)), U := none }
+  else
+    { core := .tt (d1.rl * d2.rl) d1.spatial (d1.rr * d2.rr) (fun a j b =>
+        d1.get (a / d2.rl) j (b / d2.rr) * d2.get (a % d2.rl) j (b % d2.rr)), U := none }
+
+/-- `__mul__`, branch "product on the three axes" (tensor.py:751-759); the new factor is the
+    row-wise Kronecker (Khatri-Rao) product of the factors -/
+def mulFac (c1 c2 : Core R) (U1 U2 : Fac R) : TMode R :=
+  let U : Fac R := U1.krao U2
+  if c1.isCP && c2.isCP then
+    { core := .cp (c1.spatial * c2.spatial) (c1.rr * c2.rr) (fun j k =>
+        c1.get (k / c2.rr) (j / c2.spatial) (k / c2.rr) * c2.get (k % c2.rr) (j % c2.spatial) (k % c2.rr)),
+      U := some U }
+  else
+    { core := .tt (c1.rl * c2.rl) (c1.spatial * c2.spatial) (c1.rr * c2.rr) (fun a j b =>
+        c1.get (a / c2.rl) (j / c2.spatial) (b / c2.rr) * c2.get (a % c2.rl) (j % c2.spatial) (b % c2.rr)),
+      U := some U }
+
 /-- one mode of `__mul__` -/
 def mulMode (x y : TMode R) : TMode R :=
-  let c1 := x.core; let c2 := y.core
-  let bothCP := c1.isCP && c2.isCP
   match x.U, y.U with
   | some U1, some U2 =>
-    if c1.spatial * c2.spatial < U1.rows then
-      -- product on the three axes; factor = row-wise Kronecker (Khatri-Rao) of the factors
-      let U : Fac R := { rows := U1.rows, cols := U1.cols * U2.cols,
-                         f := fun i j => U1.f i (j / U2.cols) * U2.f i (j % U2.cols) }
-      if bothCP then
-        match c1, c2 with
-        | .cp s1 r1 f1, .cp s2 r2 f2 =>
-          { core := .cp (s1 * s2) (r1 * r2) (fun j k => f1 (j / s2) (k / r2) * f2 (j % s2) (k % r2)), U := some U }
-        | _, _ => { core := c1, U := some U }
-      else
-        { core := .tt (c1.rl * c2.rl) (c1.spatial * c2.spatial) (c1.rr * c2.rr) (fun a j b =>
-            c1.get (a / c2.rl) (j / c2.spatial) (b / c2.rr) * c2.get (a % c2.rl) (j % c2.spatial) (b % c2.rr)),
-          U := some U }
-    else
-      let d1 := x.decomp; let d2 := y.decomp
-      if bothCP then
-        match d1, d2 with
-        | .cp s1 r1 f1, .cp _ r2 f2 =>
-          { core := .cp s1 (r1 * r2) (fun j k => f1 j (k / r2) * f2 j (k % r2)), U := none }
-        | _, _ => { core := d1, U := none }
-      else
-        { core := .tt (d1.rl * d2.rl) d1.spatial (d1.rr * d2.rr) (fun a j b =>
-            d1.get (a / d2.rl) j (b / d2.rr) * d2.get (a % d2.rl) j (b % d2.rr)), U := none }
-  | _, _ =>
-    let d1 := x.decomp; let d2 := y.decomp
-    if bothCP then
-      match d1, d2 with
-      | .cp s1 r1 f1, .cp _ r2 f2 =>
-        { core := .cp s1 (r1 * r2) (fun j k => f1 j (k / r2) * f2 j (k % r2)), U := none }
-      | _, _ => { core := d1, U := none }
-    else
-      { core := .tt (d1.rl * d2.rl) d1.spatial (d1.rr * d2.rr) (fun a j b =>
-          d1.get (a / d2.rl) j (b / d2.rr) * d2.get (a % d2.rl) j (b % d2.rr)), U := none }
+    if x.core.shape1 * y.core.shape1 < U1.rows then mulFac x.core y.core U1 U2 else mulPlain x y
+  | _, _ => mulPlain x y
 
 /-- `a * b` for two compressed tensors -/
 def Tensor.mul (t u : Tensor R) : Tensor R :=
